@@ -18,9 +18,14 @@ def _canon(df) -> str:
         return json.dumps({str(k): _canon(v) for k, v in sorted(df.items())})
     if isinstance(df, (list, tuple)):
         return json.dumps([_canon(x) if hasattr(x, "columns") else x for x in df], default=str)
-    d = df.reset_index(drop=False) if getattr(df.index, "name", None) or True else df
+    rank_keyed = "rank" in [str(c) for c in df.columns] and isinstance(df.index, pd.RangeIndex)
+    d = df.reset_index(drop=rank_keyed)
     d = d.copy()
     d.columns = [str(c) for c in d.columns]
+    if "rank" in d.columns:
+        # per-rank tables list the ranks in the insertion order of Trace.traces, which follows the call history (a rank parsed alone first comes
+        # first); the rows are keyed by their rank column, so tables are compared as rank-keyed row sets (observation O3 in DESIGN.md)
+        d = d.sort_values("rank", kind="stable")
     rows = list(json.dumps([None if (isinstance(v, float) and v != v) else (round(v, 6) if isinstance(v, float) else str(v)) for v in r]) for r in d.itertuples(index=False))
     return json.dumps([list(d.columns), rows])
 
@@ -39,7 +44,14 @@ def main() -> None:
         from hta.trace_analysis import TraceAnalysis
         mapping = os.environ.get("VF_C11_MAPPING", "")
         files = {int(k): v for k, v in json.loads(mapping).items()} if mapping else None
-        if mp:
+        hist = os.environ.get("VF_C11_HIST", "")
+        out["hist"] = hist
+        if hist != "":
+            ta = TraceAnalysis.__new__(TraceAnalysis)
+            ta.t = Trace(trace_files=files, trace_dir=d)
+            ta.t.parse_single_rank(sorted(ta.t.trace_files)[int(hist)])
+            ta.t.load_traces(use_multiprocessing=mp)
+        elif mp:
             ta = TraceAnalysis(trace_files=files, trace_dir=d)
         else:
             ta = TraceAnalysis.__new__(TraceAnalysis)
